@@ -381,10 +381,37 @@ func vRwGen(o *vOut, r *vRand, thorough bool, _ []string, emit func(string)) {
 	rev := []string{layer[4], layer[3], layer[2], layer[1], layer[0]}
 	e.newRules("rules", rev)
 	e.grid([]int{1, 2}, allIPs)
-	// family-starved catch-all (F15): external IPv6 only, limited to IPv4 networks
+	// family-starved catch-all (F15, fixed in /repo d6a4f83: it matches nothing): external IPv6 only, limited to IPv4 networks
 	e.newRules("rules", []string{vRwEnc(1, 1, "-", "-", "-", "1", p.ext6[0])})
 	e.grid([]int{1}, []string{L1, M1})
 	e.apply("host", L1, "-")
+	// starved rules of every type x mode x {-, Iface} x both families (one and two externals), alone (nil mapper), before and after
+	// a global rule of the same type, beside the documented EMPTY rule with the same Networks; direct and through the option
+	for _, ty := range []int{1, 2, 4, 0} {
+		kind := map[int]string{0: "host", 1: "host", 2: "srflx", 4: "relay"}[ty]
+		ct := max(ty, 1)
+		for _, mo := range []int{1, 2, 0} {
+			for _, ifc := range []string{"-", "eth0"} {
+				for _, st := range [][2]string{{"1", p.ext6[0]}, {"2", p.ext4[0]}, {"1,3", p.ext6[1] + "," + p.ext6[2]}, {"4", p.ext4[1] + "," + p.ext4[2]}} {
+					starved := vRwEnc(ty, mo, ifc, "-", "-", st[0], st[1])
+					empty := vRwEnc(ty, mo, ifc, "-", "-", st[0], "-")
+					global := vRwEnc(ty, 3-max(mo, 1), "-", "-", "-", "-", p.ext4[2]+","+p.ext6[2])
+					for _, path := range []string{"rules", "opt"} {
+						for _, rs := range [][]string{{starved}, {starved, global}, {global, starved}, {starved, empty}} {
+							e.newRules(path, rs)
+							for _, ip := range []string{L1, M1} {
+								e.lookup(ct, ip, "-")
+								e.lookup(ct, ip, "eth0")
+							}
+							e.apply(kind, L1, "eth0")
+							e.apply(kind, M1, "-")
+							o.stat("gen.starved")
+						}
+					}
+				}
+			}
+		}
+	}
 	e.newRules("opt", []string{vRwEnc(1, 0, "-", "-", "-", "1", p.ext6[0])}) // the same through the public option
 	e.grid([]int{1}, []string{L1, M1})
 	e.apply("host", L1, "eth0")
